@@ -157,6 +157,23 @@ func runC20(r *Run) {
 				okEx = false
 			}
 		}
+		// … and every other cookie is: apart from an excepted name and a cookie the response does not hold, no way
+		// through the visitor leaves the cookie as the handler set it (whatever its expiry, flags or value)
+		skip := map[edge]bool{}
+		for _, e := range de {
+			skip[e] = true
+		}
+		for _, c := range callsMatching(cl, false, nameHasSuffix("fasthttp.ResponseHeader).Cookie")) {
+			for _, br := range ifsOnValue(cl, c.Value()) {
+				if s, ok := br.truthSlot(false); ok {
+					skip[edge{br.If.Block(), s}] = true
+				}
+			}
+		}
+		isOwnReturn := func(in ssa.Instruction) bool { _, ok := in.(*ssa.Return); return ok && in.Parent() == cl }
+		path, hitR := reach(entryOf(cl), isOwnReturn, skip, isSetCookie)
+		r.check(hitR == nil, "response-visitor:every-other-cookie-is-rewritten", r.fpos(cl), "with the `excepted` and `not in the response` edges removed every path through the visitor stores the cookie back (with the ciphertext, see above)",
+			"the visitor can leave a response cookie untouched although its name is not excepted (e.g. one whose expiry lies in the past): the value the handler set goes out in plaintext: "+pathString(r.P, path))
 		r.check(okEx, "response-visitor:excepted-pass-through", r.fpos(cl), "excepted names are not rewritten", "excepted cookie names are rewritten (or the exception list is not consulted)")
 	})
 
